@@ -1390,3 +1390,69 @@ def _run_carry(stmts, env, seg, idx, stack, frontier, carried_name, emitted, car
             pass
         else:
             raise Shape('carry statement %s' % ast.unparse(st)[:50])
+
+
+def check_patchup(ix, rep, f, opname, rule='R-SEGBUILD', slot_prefix=''):
+    """online: the influence interval of the last sample of the previous batch was given the provisional end T[k] + end; when the next batch arrives
+    its end becomes T[k+1] + end with T[k+1] the first time-stamp of the new batch -- the segment is the last one carried over"""
+    slot = '%s%s:patch-up' % (slot_prefix, opname)
+    try:
+        info = find_step(f.node)
+    except Shape as e:
+        rep.error('%s (%s): %s' % (f.where, f.qual, e))
+        return 0
+    stack = info['stack']
+    loop = info['loop']
+    params = [a.arg for a in f.node.args.args if a.arg != 'self']
+    sample = params[0]
+    cands = []
+    for st in f.node.body:
+        if st is loop:
+            break
+        for n in ast.walk(st):
+            if isinstance(n, ast.Call) and isinstance(n.func, ast.Attribute) and n.func.attr == 'append' and _is_name(n.func.value, stack) and n.args \
+                    and isinstance(n.args[0], ast.Tuple) and len(n.args[0].elts) == 3:
+                cands.append((st, n))
+    if not cands:
+        rep.fail(rule, f.module.rel, f.qual, slot, 'the provisional end of the last carried segment is never extended when the next batch arrives: the value of the last sample of a batch '
+                 'is lost after T + end although it holds until the next sample', f.node.lineno)
+        return 1
+    st, call = cands[0]
+    # local bindings inside the enclosing block
+    binds = {}
+    for n in ast.walk(st):
+        if isinstance(n, ast.Assign) and isinstance(n.targets[0], ast.Name):
+            binds[n.targets[0].id] = ast.unparse(n.value).replace(' ', '')
+    def norm(e):
+        t = ast.unparse(e).replace(' ', '')
+        for k_, v_ in binds.items():
+            t = t.replace(k_ + '[', '(' + v_ + ')[')
+        return t
+    e0, e1, e2 = [norm(x) for x in call.args[0].elts]
+    top = ['(%s[len(%s)-1])' % (stack, stack), '(%s[-1])' % stack]
+    first = '(%s[0])' % sample
+    endn = [p for p, v in {**{a: a for a in ('end',)}, **{k: v for k, v in _local_bounds(f).items()}}.items() if v == 'end'] + ['self.end']
+    ok0 = any(e0 == t + '[0]' for t in top)
+    ok2 = any(e2 == t + '[2]' for t in top)
+    ok1 = any(e1 in ('%s[0]+%s' % (first, en), '%s+%s[0]' % (en, first)) for en in endn)
+    guarded = any(isinstance(g, ast.If) and any(x is call for x in ast.walk(g)) and _mentions(g.test, stack) for g in ast.walk(st)) and \
+        (isinstance(st, ast.If) and _mentions(st.test, sample))
+    if ok0 and ok1 and ok2 and guarded:
+        rep.ok(rule, f.module.rel, f.qual, slot, 'last carried segment re-ended at T[first of the new batch] + end, start and value kept', call.lineno)
+    else:
+        rep.fail(rule, f.module.rel, f.qual, slot, 'when a new batch arrives the last carried segment becomes (%s, %s, %s)%s; it must keep its start and value and end at %s[0][0] + end' % (
+            e0, e1, e2, '' if guarded else ' without checking that a segment was carried and the batch is non-empty', sample), call.lineno)
+    return 1
+
+
+def _local_bounds(f):
+    out = {}
+    for st in f.node.body:
+        if isinstance(st, ast.Assign) and isinstance(st.targets[0], ast.Name) and isinstance(st.value, ast.Attribute) and isinstance(st.value.value, ast.Name) \
+                and st.value.value.id == 'self' and st.value.attr in ('begin', 'end'):
+            out[st.targets[0].id] = st.value.attr
+    return out
+
+
+def _mentions(e, name):
+    return any(isinstance(n, ast.Name) and n.id == name for n in ast.walk(e))
